@@ -19,6 +19,15 @@ type tnode struct {
 	text    string // literal text or name
 	a, b    []*tnode
 	hasElse bool
+	m       []*tnode // block only: override in the middle template of a three-level chain
+	hasMid  bool
+}
+
+// nestedSpec: how the items of a nested list are generated for each outer item.
+type nestedSpec struct {
+	scalar bool
+	proto  map[string]interface{}
+	cnt    int
 }
 
 func tprint(ns []*tnode, sb *strings.Builder) {
@@ -146,7 +155,7 @@ func teval(ns []*tnode, d *tdata, cx *tctx, sb *strings.Builder) {
 
 // ---- generator ----
 
-var c16AllFeatures = []string{"else", "dlv", "nested", "adjacent", "missing", "loopmeta", "loopmeta-nested", "scalar-loop", "map-loop", "blocks", "image", "braces", "multiline-value", "nonstring", "loop-if", "hostile-literal", "var-in-loop", "two-loops", "empty-list", "if", "outer-field-in-nested"}
+var c16AllFeatures = []string{"else", "dlv", "nested", "adjacent", "missing", "loopmeta", "loopmeta-nested", "scalar-loop", "map-loop", "blocks", "image", "braces", "multiline-value", "nonstring", "loop-if", "hostile-literal", "var-in-loop", "two-loops", "empty-list", "if", "outer-field-in-nested", "three-level-chain"}
 
 type tgen struct {
 	r     *rng.R
@@ -339,6 +348,7 @@ func (g *tgen) nodes(ctx string, depth, budget int, item map[string]interface{})
 				cnt = 0
 			}
 			var items []interface{}
+			var nestedProto map[string]interface{}
 			if scalar {
 				nd.a = g.nodes("scalar", depth+1, 2, nil)
 				for j := 0; j < cnt; j++ {
@@ -346,6 +356,7 @@ func (g *tgen) nodes(ctx string, depth, budget int, item map[string]interface{})
 				}
 			} else {
 				proto := map[string]interface{}{}
+				nestedProto = proto
 				nd.a = g.nodes("map", depth+1, 3, proto)
 				if ctx == "map" && g.on("outer-field-in-nested", 1, 3) {
 					// a field of the enclosing item referenced inside the nested loop
@@ -363,7 +374,12 @@ func (g *tgen) nodes(ctx string, depth, budget int, item map[string]interface{})
 					g.d.lists[name] = items
 				}
 			} else if !missingList {
-				item["#"+name] = items
+				sp := &nestedSpec{scalar: scalar, cnt: cnt}
+				if !scalar {
+					// keep the prototype: every outer item gets its own nested items
+					sp.proto = nestedProto
+				}
+				item["#"+name] = sp
 			}
 			out = append(out, nd)
 		default: // image placeholder on a line of its own
@@ -426,8 +442,24 @@ func (g *tgen) fill(proto map[string]interface{}) map[string]interface{} {
 				it[k[1:]] = g.r.Bool()
 			}
 		case strings.HasPrefix(k, "#"):
-			// nested list: copy the generated items (same for every outer item keeps the case small)
-			it[k[1:]] = proto[k]
+			// nested list: every outer item gets its own items; some items lack the list altogether
+			sp := proto[k].(*nestedSpec)
+			if g.on("missing", 1, 5) {
+				break
+			}
+			n := sp.cnt
+			if n > 0 {
+				n = g.r.Range(0, 3)
+			}
+			items := []interface{}{}
+			for j := 0; j < n; j++ {
+				if sp.scalar {
+					items = append(items, g.value())
+				} else {
+					items = append(items, g.fill(sp.proto))
+				}
+			}
+			it[k[1:]] = items
 		default:
 			if !g.on("missing", 1, 10) {
 				it[k] = g.value()
@@ -438,12 +470,13 @@ func (g *tgen) fill(proto map[string]interface{}) map[string]interface{} {
 }
 
 type c16Case struct {
-	nodes     []*tnode // top level; "block" nodes (a = default, b = override when hasElse) only here
-	templates [][2]string
-	render    string
-	expected  string
-	data      *tdata
-	used      []string
+	nodes       []*tnode // top level; "block" nodes (a = default, m = middle override, b = leaf override) only here
+	threeLevels bool
+	templates   [][2]string
+	render      string
+	expected    string
+	data        *tdata
+	used        []string
 }
 
 // build prints the templates and evaluates the expected output from the AST.
@@ -454,8 +487,19 @@ func (cs *c16Case) build() {
 			hasBlocks = true
 		}
 	}
-	var base, child, exp strings.Builder
-	child.WriteString(`{{extends "base"}}`)
+	var base, mid, child, exp strings.Builder
+	hasMid := false
+	for _, n := range cs.nodes {
+		if n.kind == "block" && n.hasMid {
+			hasMid = true
+		}
+	}
+	mid.WriteString(`{{extends "base"}}`)
+	if hasMid || cs.threeLevels {
+		child.WriteString(`{{extends "mid"}}`)
+	} else {
+		child.WriteString(`{{extends "base"}}`)
+	}
 	for _, n := range cs.nodes {
 		if n.kind != "block" {
 			tprint([]*tnode{n}, &base)
@@ -465,16 +509,29 @@ func (cs *c16Case) build() {
 		base.WriteString(`{{#block "` + n.text + `"}}`)
 		tprint(n.a, &base)
 		base.WriteString(`{{/block}}`)
+		if n.hasMid {
+			mid.WriteString(`{{#block "` + n.text + `"}}`)
+			tprint(n.m, &mid)
+			mid.WriteString(`{{/block}}`)
+		}
 		if n.hasElse {
 			child.WriteString(`{{#block "` + n.text + `"}}`)
 			tprint(n.b, &child)
 			child.WriteString(`{{/block}}`)
+		}
+		switch {
+		case n.hasElse:
 			teval(n.b, cs.data, nil, &exp)
-		} else {
+		case n.hasMid:
+			teval(n.m, cs.data, nil, &exp)
+		default:
 			teval(n.a, cs.data, nil, &exp)
 		}
 	}
-	if hasBlocks {
+	if hasBlocks && (hasMid || cs.threeLevels) {
+		cs.templates = [][2]string{{"base", base.String()}, {"mid", mid.String()}, {"child", child.String()}}
+		cs.render = "child"
+	} else if hasBlocks {
 		cs.templates = [][2]string{{"base", base.String()}, {"child", child.String()}}
 		cs.render = "child"
 	} else {
@@ -491,12 +548,17 @@ func c16Generate(seed uint64, prop string, cs int, feat map[string]bool) *c16Cas
 	if g.on("blocks", 1, 5) {
 		names := []string{"main", "side bar", "b-1", "头部"}
 		nb := r.Range(1, 3)
+		out.threeLevels = g.on("three-level-chain", 1, 2)
 		for i := 0; i < nb; i++ {
 			out.nodes = append(out.nodes, g.nodes("top", 0, 2, nil)...)
 			b := &tnode{kind: "block", text: names[i], a: g.nodes("top", 0, 2, nil)}
 			if r.Bool() {
 				b.hasElse = true
 				b.b = g.nodes("top", 0, 2, nil)
+			}
+			if out.threeLevels && r.Bool() {
+				b.hasMid = true
+				b.m = g.nodes("top", 0, 2, nil)
 			}
 			out.nodes = append(out.nodes, b)
 		}
@@ -552,7 +614,7 @@ func cloneNodes(ns []*tnode) []*tnode {
 	out := make([]*tnode, len(ns))
 	for i, n := range ns {
 		c := *n
-		c.a, c.b = cloneNodes(n.a), cloneNodes(n.b)
+		c.a, c.b, c.m = cloneNodes(n.a), cloneNodes(n.b), cloneNodes(n.m)
 		out[i] = &c
 	}
 	return out
@@ -590,7 +652,7 @@ func (cs *c16Case) clone() *c16Case {
 	for k, v := range cs.data.images {
 		d.images[k] = v
 	}
-	return &c16Case{nodes: cloneNodes(cs.nodes), data: d}
+	return &c16Case{nodes: cloneNodes(cs.nodes), data: d, threeLevels: cs.threeLevels}
 }
 
 // listsOf returns pointers to every node list of the AST (depth first), so that reductions can address them by index.
@@ -602,6 +664,9 @@ func listsOf(root *[]*tnode, out *[]*[]*tnode) {
 		}
 		if n.hasElse {
 			listsOf(&n.b, out)
+		}
+		if n.hasMid {
+			listsOf(&n.m, out)
 		}
 	}
 }
@@ -649,6 +714,20 @@ func c16Reductions(cs *c16Case) []func(*c16Case) {
 					}
 				})
 			}
+		}
+	}
+	if cs.threeLevels {
+		out = append(out, func(c *c16Case) {
+			c.threeLevels = false
+			for _, n := range c.nodes {
+				n.hasMid, n.m = false, nil
+			}
+		})
+	}
+	for i, n := range cs.nodes {
+		i := i
+		if n.kind == "block" && n.hasMid {
+			out = append(out, func(c *c16Case) { c.nodes[i].hasMid, c.nodes[i].m = false, nil })
 		}
 	}
 	// data: plain values, single items
@@ -804,6 +883,13 @@ func c16Describe(cs *c16Case) []string {
 				if n.hasElse {
 					set["block-override"] = true
 					walk(n.b, depth, inMap, items)
+				}
+				if n.hasMid {
+					set["block-override-in-middle-template"] = true
+					walk(n.m, depth, inMap, items)
+				}
+				if cs.threeLevels {
+					set["three-level-chain"] = true
 				}
 				walk(n.a, depth, inMap, items)
 			case "if":
@@ -996,7 +1082,7 @@ func c16Features(list []string) map[string]bool {
 
 // features whose combination is believed to hold on the current tree: half of the cases use only these so that the
 // clean part of the input space is explored without any known-finding suppression in play.
-var c16Core = []string{"else", "adjacent", "missing", "loopmeta", "scalar-loop", "map-loop", "blocks", "image", "braces", "multiline-value", "nonstring", "loop-if", "hostile-literal", "var-in-loop", "two-loops", "empty-list", "if", "nested", "outer-field-in-nested"}
+var c16Core = []string{"else", "adjacent", "missing", "loopmeta", "scalar-loop", "map-loop", "blocks", "image", "braces", "multiline-value", "nonstring", "loop-if", "hostile-literal", "var-in-loop", "two-loops", "empty-list", "if", "nested", "outer-field-in-nested", "three-level-chain", "dlv"}
 
 func c16Run(c *core.Ctx) *core.Result {
 	res := &core.Result{}
